@@ -70,6 +70,9 @@ def gen_batch(rng, tier):
         L.append("MULTI 1 %d %d" % (n, col))
     # directed DictLife histories: a reset with parameters drops the multi-DDict set as well
     L.append("HIST dmulti dref:1 dref:6 dreset dmulti dref:%d cload:%d comp:1 dec" % (rng.choice([1, 6]), rng.choice([1, 6])))
+    # ... and a frame may name any dictionary of the set, not only the most recently referenced one (single-call decoding included)
+    a, b = rng.choice([(1, 6), (6, 1)])
+    L.append("HIST dmulti dref:%d dref:%d dref:0 cload:%d comp:1 dec cload:%d comp:1 dec" % (a, b, a, b))
     # DictLife histories over slots {0 (raw), 1 (golden), 2/5 (generated)} — only accepted dictionaries are used (checked at replay)
     ops = ["cload", "cref", "cprefix", "creset", "comp", "dload", "dref", "dprefix", "dmulti", "dreset", "dec"]
     for _ in range(8 if tier == "quick" else 30):
@@ -154,7 +157,18 @@ def run(tier):
                 while k > 0 and cur[k]["e"] != "histbegin":
                     k -= 1
                 ctx = cur[k:pos]
-            rp = ck.replay_path("dict-%d-%d.json" % (bi, pos), {"property": PID, "dictionaries": dicts, "history": ctx, "event": bad})
+            # the script line that produced the event (events of a kind are in script order)
+            srcline = ""
+            kindmap = {"rt": "RT", "wrong": "WRONG", "loaders": "LOADERS", "multiN": "MULTI"}
+            if bad.get("e") in kindmap and bad in evs:
+                k = len([e for e in evs[:evs.index(bad)] if e["e"] == bad["e"]])
+                cand = [l for l in lines if l.startswith(kindmap[bad["e"]] + " ")]
+                srcline = cand[k] if k < len(cand) else ""
+            elif bad.get("e") == "hist" and bad in evs:
+                k = len([e for e in evs[:evs.index(bad)] if e["e"] == "histbegin"]) - 1
+                cand = [l for l in lines if l.startswith("HIST ")]
+                srcline = cand[k] if 0 <= k < len(cand) else ""
+            rp = ck.replay_path("dict-%d-%d.json" % (bi, pos), {"property": PID, "dictionaries": dicts, "script_line": srcline, "history": ctx, "event": bad})
             ck.violation("DictTrace rejected %s (dictionaries: %s)" % (json.dumps(bad)[:300], " ; ".join(d[:90] for d in dicts)), rp, ident=ident)
             # skip this event (and, inside a history, the rest of the history)
             nxt = pos + 1
